@@ -315,6 +315,57 @@ func c06(c *an.Ctx) {
 		}
 	})
 
+	c.Check("R-WHO", "gateway-wide state (fields and maps of Executor / Syncer) is written only by NewExecutor and setPlanner: nothing a request derives from its own planner snapshot is published to later requests", 2, func(o *an.O) {
+		allowed := map[string]bool{"NewExecutor": true, "(*Executor).setPlanner": true}
+		isShared := func(v ssa.Value) bool {
+			n := an.NamedOf(v.Type())
+			return n != nil && n.Obj().Pkg() != nil && n.Obj().Pkg().Path() == an.ModulePath+"/"+fed && (n.Obj().Name() == "Syncer" || n.Obj().Name() == "Executor")
+		}
+		fieldOfShared := func(v ssa.Value) bool { // v = load of (or address of) a field of a Syncer / Executor
+			if ld, ok := v.(*ssa.UnOp); ok && ld.Op == token.MUL {
+				v = ld.X
+			}
+			fa, ok := v.(*ssa.FieldAddr)
+			return ok && isShared(fa.X)
+		}
+		n := 0
+		for _, fn := range p.ModuleFuncs(func(rel string) bool { return rel == fed }) {
+			ok := p.AllowedFunc(fn, func(f *ssa.Function) bool { return an.RelPkg(f) == fed && allowed[an.QualName(f)] })
+			an.Instrs(fn, func(i ssa.Instruction) {
+				what := ""
+				switch x := i.(type) {
+				case *ssa.Store:
+					if fa, isFA := x.Addr.(*ssa.FieldAddr); isFA && isShared(fa.X) {
+						// a literal being built is not shared yet
+						if _, fresh := fa.X.(*ssa.Alloc); fresh {
+							return
+						}
+						what = "stores to " + an.Expr(x.Addr)
+					}
+				case *ssa.MapUpdate:
+					if fieldOfShared(x.Map) {
+						what = "updates the map " + an.Expr(x.Map)
+					}
+				case *ssa.Call:
+					if b, isB := x.Call.Value.(*ssa.Builtin); isB && b.Name() == "delete" && fieldOfShared(x.Call.Args[0]) {
+						what = "deletes from the map " + an.Expr(x.Call.Args[0])
+					}
+				}
+				if what == "" {
+					return
+				}
+				n++
+				o.Site(i)
+				if !ok {
+					o.FailAt(i, "%s %s outside NewExecutor / setPlanner: state derived from one request's planner snapshot becomes visible to requests planned on another (after a schema refresh they would be executed with stale type or key information)", an.QualName(fn), what)
+				}
+			})
+		}
+		if n < 2 {
+			o.Undecided("found %d writes to Executor / Syncer state (expected the planner store and the introspection client update in setPlanner)", n)
+		}
+	})
+
 	c.Check("R-GUARD", "planObject: local iff selected service == current service; other selections go to that service's sub-plan; _federation key added when another service is involved", 4, func(o *an.O) {
 		fn := c.NeedFunc(fed, "(*Planner).planObject")
 		var sel ssa.Value
@@ -722,7 +773,6 @@ func pkgConstString(p *an.Prog, rel, name string) string {
 	}
 	return constStr(sp, name)
 }
-
 
 // loopEncloses: instruction i lies in the loop that computes v (or v dominates it within one).
 func loopEncloses(v ssa.Value, i ssa.Instruction) bool {
